@@ -33,6 +33,7 @@ fn dispatch(kind: &str, args: &[&str]) -> String {
         "lex" => k_lex::run(args),
         "conv" => k_conv::run(args),
         "fmt" => k_fmt::run(args),
+        "f32sweep" => k_fmt::sweep(args),
         "nv" => k_nv::run(args),
         "enum" | "enumv" => k_enum::run(kind, args),
         "nlist" | "clist" => k_list::run(kind, args),
